@@ -32,5 +32,8 @@ func main() {
 			Rule: "the same job with reading gated at seeded offsets so that checkpoints are triggered with an idle pipeline, mid flow, with key-by batches pending and back to back; for every checkpoint N, runner r and split i: in every operator stream no record of split i with offset < reported position arrives after r's barrier N and none with offset >= position before it; every splitter incarnation assigns every split exactly once; final state = every keyed event once; non-trivial = >=1 intermediate checkpoint; distinct by (options, positions)"},
 		&lib.Prop{ID: "C11", Part: "runner-watermarks", Level: "exploration", NCases: n(30, 1200), Run: c11Runner, Assumptions: clAssume,
 			Rule: "the same job with event timestamps increasing / reversed / random / constant / extreme (1970+1ns .. ~2255), 1..4 runners, watermark interval tuned to 1..5 ms; per operator stream and sender: watermarks never decrease, watermark >= largest timestamp delivered earlier in that stream - 1 ns (follows closely), watermark < largest timestamp that runner had keyed when it was delivered (never reaches); non-trivial = always; distinct by options"},
+		&lib.Prop{ID: "C01", Part: "full-restart", Level: "fault_enumeration", NCases: n(25, 800), Run: c01FullRestart,
+			Assumptions: append([]string{"family F: every worker of the assembly is replaced by a fresh one (new process); survivors redeployed in place are family P (see known findings)", "the job notices dead members through heartbeat expiry (FrozenClock advanced by 6 s) and the re-registration of the replacements"}, clAssume...),
+			Rule: "1..3 crashes per run at seeded logical points: idle right after a published checkpoint / mid flow after a checkpoint with post-cut records applied / mid flow with no checkpoint in the epoch / during a checkpoint after the j-th of the 2W acknowledgements reached the job (the others held, then dropped with the dying nodes), every j; all workers killed and replaced, job redeploys from its latest completed checkpoint, reading resumes from the checkpointed cursors; oracles: at every deploy round the shadow of every key is reset to the cut of the checkpoint named in the Deploy requests (frozen at the operators' acknowledgements) and every handler invocation's supplied state must equal it (no record lost, none applied twice: seen/<id> and last/<split> entries), final state = every keyed event of the input exactly once, barrier-cut oracle on every stream, deploys only to live nodes / exactly W members / one checkpoint per round, and bounded progress: a checkpoint completes again after the recovery or a stuck-state witness is shown; non-trivial = always; distinct by (options, log)"},
 	)
 }
